@@ -72,8 +72,17 @@ type Definitions struct {
 	Signals  []string `json:"signals,omitempty"`
 	Messages []string `json:"messages,omitempty"`
 	MsgFlows [][2]string `json:"msgFlows,omitempty"`
+	// header variations (C15): attributes of the definitions element that the rest of the document may rely on
+	TypeLang     bool   `json:"typeLang,omitempty"`     // declare typeLanguage explicitly
+	Exporter     bool   `json:"exporter,omitempty"`     // exporter / exporterVersion attributes
+	DefLang      string `json:"defLang,omitempty"`      // "" = expr, "xpath": the definitions-level expressionLanguage
+	ImplicitLang bool   `json:"implicitLang,omitempty"` // conditions in the definitions-level language do not repeat it
+	Zoo          string `json:"zoo,omitempty"`          // raw XML of a further, non-executable process (and root elements) the engine never runs
 	ctr map[string]int
 }
+
+// emitImplicitLang is the language conditions may leave out while a document is being written ("" = none)
+var emitImplicitLang string
 
 // fresh returns a new id with prefix p; every prefix has its own counter, so that adding wrapper
 // nodes or flows does not rename the activities.
@@ -308,7 +317,9 @@ func (g *Graph) emitBody(b *strings.Builder, ind string) {
 		} else {
 			lang, text := condText(f.Cond)
 			fmt.Fprintf(b, "%s<bpmn:sequenceFlow id=\"%s\" sourceRef=\"%s\" targetRef=\"%s\">\n", ind, f.ID, f.From, f.To)
-			if f.Cond.Informal {
+			if !f.Cond.Informal && emitImplicitLang != "" && lang == emitImplicitLang {
+				fmt.Fprintf(b, "%s  <bpmn:conditionExpression xsi:type=\"bpmn:tFormalExpression\">%s</bpmn:conditionExpression>\n", ind, text)
+			} else if f.Cond.Informal {
 				fmt.Fprintf(b, "%s  <bpmn:conditionExpression>%s</bpmn:conditionExpression>\n", ind, text)
 			} else {
 				fmt.Fprintf(b, "%s  <bpmn:conditionExpression xsi:type=\"bpmn:tFormalExpression\" language=\"%s\">%s</bpmn:conditionExpression>\n", ind, lang, text)
@@ -322,7 +333,22 @@ func (g *Graph) emitBody(b *strings.Builder, ind string) {
 func (d *Definitions) XML() string {
 	var b strings.Builder
 	b.WriteString(`<?xml version="1.0" encoding="UTF-8"?>` + "\n")
-	b.WriteString(`<bpmn:definitions xmlns:bpmn="http://www.omg.org/spec/BPMN/20100524/MODEL" xmlns:olive="http://olive.io/spec/BPMN/MODEL" xmlns:xsi="http://www.w3.org/2001/XMLSchema-instance" id="Defs" targetNamespace="http://bpmn.io/schema/bpmn" expressionLanguage="` + exprLang + `">` + "\n")
+	defLang := exprLang
+	if d.DefLang == "xpath" {
+		defLang = xpathLang
+	}
+	extra := ""
+	if d.TypeLang {
+		extra += ` typeLanguage="http://www.w3.org/2001/XMLSchema"`
+	}
+	if d.Exporter {
+		extra += ` exporter="verif" exporterVersion="1.2"`
+	}
+	if d.ImplicitLang {
+		emitImplicitLang = defLang
+		defer func() { emitImplicitLang = "" }()
+	}
+	b.WriteString(`<bpmn:definitions xmlns:bpmn="http://www.omg.org/spec/BPMN/20100524/MODEL" xmlns:olive="http://olive.io/spec/BPMN/MODEL" xmlns:xsi="http://www.w3.org/2001/XMLSchema-instance" id="Defs" targetNamespace="http://bpmn.io/schema/bpmn" expressionLanguage="` + defLang + `"` + extra + `>` + "\n")
 	sigs := append([]string{}, d.Signals...)
 	sort.Strings(sigs)
 	for _, s := range sigs {
@@ -348,6 +374,7 @@ func (d *Definitions) XML() string {
 		p.emitBody(&b, "    ")
 		b.WriteString("  </bpmn:process>\n")
 	}
+	b.WriteString(d.Zoo)
 	b.WriteString("</bpmn:definitions>\n")
 	return b.String()
 }
